@@ -92,3 +92,23 @@ func init() {
 		c.R.Ok("X", "x", "", "dump")
 	}})
 }
+
+func init() {
+	register(&Prop{ID: "XSETS", Run: func(c *Ctx) {
+		fd := loadFunc(c, "", "generateRandomizedSpec")
+		f, finals := runSetFlow(c.P.TLS, fd)
+		fmt.Println("issues", f.issues)
+		for _, s := range finals {
+			fmt.Println("STATE", s.key())
+			var ks []string
+			for k := range s.sets {
+				ks = append(ks, k)
+			}
+			sort.Strings(ks)
+			for _, k := range ks {
+				fmt.Println("   ", k, s.sets[k])
+			}
+		}
+		c.R.Ok("X", "x", "", "dump")
+	}})
+}
